@@ -1,7 +1,1911 @@
-//! C03 harness (stub until built)
+//! C03: accepted programs elaborate to well-typed IR; ill-typed programs are rejected.
+//!
+//! request : C03.conv \t <src ety> \t <dst ety> <dst ety> ...
+//!             ety   = <L|R>/<mods>/<layer>
+//!             mods  = `-` or letters c(onst) v(olatile) r(ow_major) k(column_major) u(norm) n(snorm)
+//!             layer = s.<Scalar> | v.<Scalar>.<n> | m.<Scalar>.<x>.<y> | e.<id> | o.<id>
+//! observe : per destination  err | panic | <target ety>   straight from
+//!           `rssl_typer::verif::ImplicitConversion::{find, get_target_type}`
+//! oracle  : a conversion that is found produces exactly the destination type; rvalue -> lvalue and dropping
+//!           const towards an lvalue are never found
+//!
+//! request : C03.prog \t <vars> \t <funcs> \t <ret> \t <stmt> \t <expect>
+//!             vars  = `-` | <mods>/<layer>,...                      local variable i is `v<i>`
+//!             funcs = `-` | <name>:<non_default>:<mods>/<layer>:<param>,...;...   prototypes `f<name>`, overload set = same name
+//!             param = <in|out|inout>/<mods>/<layer>
+//!             ret   = void | <mods>/<layer>                          return type of the enclosing function
+//!             stmt  = (expr E) | (ret) | (ret E) | (init <mods>/<layer> E)
+//!             E     = (lit K) | (var i) | (un Op E) | (bin Op E E) | (tern E E E) | (call name E ...) | (cast <mods>/<layer> E)
+//!             expect = accept | reject | any   what the *generator* built (well-typed by construction / one injected
+//!                      violation / random); read by the oracle only, never by the model
+//!           run as a generated RSSL program through the real `rssl::typer::type_check`
+//! observe : accept <typed stmt> : <type of its expression> | reject <TyperError variant> | panic <file>
+//!             typed E = (lit K) | (var i) | (tern E E E) | (seq E E) | (call fidx E ...) | (cast <mods>/<layer> E) | (op Name E ...)
+//! oracle  : (independent of the Lean model) expect=reject programs are not accepted; no panic; for accepted programs
+//!           every expression node of every function body has a type (`Expression::get_type` under `guard`), every id is
+//!           in range, and every intrinsic operator / call / assignment / ternary / return / initialiser receives operands
+//!           of exactly the required types (rules written from the property text in `check_expr`).
+//!
+//! request : C03.type \t <vars> \t <funcs> \t <ret> \t <typed stmt>
+//!           the typed statement the real type checker produced for the C03.prog request with the same environment
+//! observe : per expression node, in pre-order: the type `Expression::get_type` gives (space separated)
+//!           -- validates the model's `typeOf` (the executable form of the `HasType` judgment) against the real rules
 use crate::util::*;
+use rssl::ir;
+use rssl::ir::ScalarType;
+use rssl::typer::verif::ImplicitConversion;
 
-pub fn run(_args: &Args, _out: &mut Out) {
-    eprintln!("C03: harness not built yet");
-    std::process::exit(2);
+// ------------------------------------------------------------------------------------------- types
+
+#[derive(Clone, Copy, PartialEq, Eq, Hash, PartialOrd, Ord, Debug)]
+pub enum Layer {
+    Scalar(u8),
+    Vector(u8, u32),
+    Matrix(u8, u32, u32),
+    Enum(u32),
+    Other(u32),
+}
+
+const SCALARS: &[(ScalarType, &str, &str)] = &[
+    (ScalarType::Bool, "Bool", "bool"),
+    (ScalarType::IntLiteral, "IntLiteral", ""),
+    (ScalarType::Int32, "Int32", "int"),
+    (ScalarType::UInt32, "UInt32", "uint"),
+    (ScalarType::FloatLiteral, "FloatLiteral", ""),
+    (ScalarType::Float16, "Float16", "half"),
+    (ScalarType::Float32, "Float32", "float"),
+    (ScalarType::Float64, "Float64", "double"),
+];
+const S_BOOL: u8 = 0;
+const S_INTLIT: u8 = 1;
+const S_INT: u8 = 2;
+const S_UINT: u8 = 3;
+const S_FLOATLIT: u8 = 4;
+const S_HALF: u8 = 5;
+const S_FLOAT: u8 = 6;
+const S_DOUBLE: u8 = 7;
+const GRID_SCALARS: &[u8] = &[S_BOOL, S_INT, S_UINT, S_HALF, S_FLOAT, S_DOUBLE];
+
+#[derive(Clone, Copy, PartialEq, Eq, Hash, PartialOrd, Ord, Debug, Default)]
+pub struct Mods(u8); // bit 0 c, 1 v, 2 r, 3 k, 4 u, 5 n
+const MOD_LETTERS: &[u8] = b"cvrkun";
+const MOD_WORDS: &[&str] = &["const", "volatile", "row_major", "column_major", "unorm", "snorm"];
+
+#[derive(Clone, Copy, PartialEq, Eq, Hash, PartialOrd, Ord, Debug)]
+pub struct Ty {
+    mods: Mods,
+    layer: Layer,
+}
+
+#[derive(Clone, Copy, PartialEq, Eq, Hash, PartialOrd, Ord, Debug)]
+pub struct ETy {
+    lvalue: bool,
+    ty: Ty,
+}
+
+#[derive(Clone, Copy, PartialEq, Eq, Hash, PartialOrd, Ord, Debug)]
+pub enum Io {
+    In,
+    Out,
+    InOut,
+}
+
+#[derive(Clone, Copy, PartialEq, Eq, Hash, PartialOrd, Ord, Debug)]
+pub struct Param {
+    io: Io,
+    ty: Ty,
+}
+
+#[derive(Clone, PartialEq, Eq, Debug)]
+pub struct Func {
+    name: u32,
+    non_default: usize,
+    ret: Ty,
+    params: Vec<Param>,
+}
+
+fn plain(layer: Layer) -> Ty {
+    Ty { mods: Mods(0), layer }
+}
+
+fn show_mods(m: Mods) -> String {
+    if m.0 == 0 {
+        return "-".into();
+    }
+    let mut s = String::new();
+    for (i, c) in MOD_LETTERS.iter().enumerate() {
+        if m.0 & (1 << i) != 0 {
+            s.push(*c as char);
+        }
+    }
+    s
+}
+
+fn parse_mods(s: &str) -> Option<Mods> {
+    if s == "-" {
+        return Some(Mods(0));
+    }
+    let mut m = 0u8;
+    for c in s.bytes() {
+        let i = MOD_LETTERS.iter().position(|x| *x == c)?;
+        m |= 1 << i;
+    }
+    Some(Mods(m))
+}
+
+fn show_layer(l: Layer) -> String {
+    match l {
+        Layer::Scalar(s) => format!("s.{}", SCALARS[s as usize].1),
+        Layer::Vector(s, n) => format!("v.{}.{}", SCALARS[s as usize].1, n),
+        Layer::Matrix(s, x, y) => format!("m.{}.{}.{}", SCALARS[s as usize].1, x, y),
+        Layer::Enum(i) => format!("e.{}", i),
+        Layer::Other(i) => format!("o.{}", i),
+    }
+}
+
+fn parse_scalar(s: &str) -> Option<u8> {
+    SCALARS.iter().position(|x| x.1 == s).map(|i| i as u8)
+}
+
+fn parse_layer(s: &str) -> Option<Layer> {
+    let p: Vec<&str> = s.split('.').collect();
+    match p.as_slice() {
+        ["s", s] => Some(Layer::Scalar(parse_scalar(s)?)),
+        ["v", s, n] => Some(Layer::Vector(parse_scalar(s)?, n.parse().ok()?)),
+        ["m", s, x, y] => Some(Layer::Matrix(parse_scalar(s)?, x.parse().ok()?, y.parse().ok()?)),
+        ["e", i] => Some(Layer::Enum(i.parse().ok()?)),
+        ["o", i] => Some(Layer::Other(i.parse().ok()?)),
+        _ => None,
+    }
+}
+
+fn show_ty(t: Ty) -> String {
+    format!("{}/{}", show_mods(t.mods), show_layer(t.layer))
+}
+
+fn parse_ty(s: &str) -> Option<Ty> {
+    let p: Vec<&str> = s.split('/').collect();
+    if p.len() != 2 {
+        return None;
+    }
+    Some(Ty { mods: parse_mods(p[0])?, layer: parse_layer(p[1])? })
+}
+
+fn show_ety(e: ETy) -> String {
+    format!("{}/{}", if e.lvalue { "L" } else { "R" }, show_ty(e.ty))
+}
+
+fn parse_ety(s: &str) -> Option<ETy> {
+    let (vt, rest) = s.split_once('/')?;
+    let lvalue = match vt {
+        "L" => true,
+        "R" => false,
+        _ => return None,
+    };
+    Some(ETy { lvalue, ty: parse_ty(rest)? })
+}
+
+fn show_param(p: Param) -> String {
+    let io = match p.io {
+        Io::In => "in",
+        Io::Out => "out",
+        Io::InOut => "inout",
+    };
+    format!("{}/{}", io, show_ty(p.ty))
+}
+
+fn parse_param(s: &str) -> Option<Param> {
+    let (io, rest) = s.split_once('/')?;
+    let io = match io {
+        "in" => Io::In,
+        "out" => Io::Out,
+        "inout" => Io::InOut,
+        _ => return None,
+    };
+    Some(Param { io, ty: parse_ty(rest)? })
+}
+
+fn show_func(f: &Func) -> String {
+    let ps: Vec<String> = f.params.iter().map(|p| show_param(*p)).collect();
+    format!("{}:{}:{}:{}", f.name, f.non_default, show_ty(f.ret), ps.join(","))
+}
+
+fn parse_func(s: &str) -> Option<Func> {
+    let p: Vec<&str> = s.splitn(4, ':').collect();
+    if p.len() != 4 {
+        return None;
+    }
+    let params: Option<Vec<Param>> = if p[3].is_empty() { Some(vec![]) } else { p[3].split(',').map(parse_param).collect() };
+    Some(Func { name: p[0].parse().ok()?, non_default: p[1].parse().ok()?, ret: parse_ty(p[2])?, params: params? })
+}
+
+fn mods_of(m: ir::TypeModifier) -> Mods {
+    let mut bits = 0u8;
+    for (i, b) in [m.is_const, m.volatile, m.row_major, m.column_major, m.unorm, m.snorm].iter().enumerate() {
+        if *b {
+            bits |= 1 << i;
+        }
+    }
+    Mods(bits)
+}
+
+fn modifier_of(m: Mods) -> ir::TypeModifier {
+    ir::TypeModifier {
+        is_const: m.0 & 1 != 0,
+        volatile: m.0 & 2 != 0,
+        row_major: m.0 & 4 != 0,
+        column_major: m.0 & 8 != 0,
+        unorm: m.0 & 16 != 0,
+        snorm: m.0 & 32 != 0,
+    }
+}
+
+/// type id -> protocol description; struct ids are mapped through `structs` (StructId -> `o.<k>`)
+fn describe(module: &ir::Module, id: ir::TypeId, structs: &dyn Fn(u32) -> Option<u32>) -> Option<Ty> {
+    let reg = &module.type_registry;
+    let (base, m) = reg.extract_modifier(id);
+    let sc = |s: ScalarType| SCALARS.iter().position(|x| x.0 == s).map(|i| i as u8);
+    let inner = |i: ir::TypeId| match reg.get_type_layer(i) {
+        ir::TypeLayer::Scalar(s) => sc(s),
+        _ => None,
+    };
+    let layer = match reg.get_type_layer(base) {
+        ir::TypeLayer::Scalar(s) => Layer::Scalar(sc(s)?),
+        ir::TypeLayer::Vector(i, n) => Layer::Vector(inner(i)?, n),
+        ir::TypeLayer::Matrix(i, x, y) => Layer::Matrix(inner(i)?, x, y),
+        ir::TypeLayer::Enum(e) => Layer::Enum(e.0),
+        ir::TypeLayer::Struct(s) => Layer::Other(structs(s.0)?),
+        _ => return None,
+    };
+    Some(Ty { mods: mods_of(m), layer })
+}
+
+fn describe_ety(module: &ir::Module, e: ir::ExpressionType, structs: &dyn Fn(u32) -> Option<u32>) -> String {
+    match describe(module, e.0, structs) {
+        Some(t) => show_ety(ETy { lvalue: e.1 == ir::ValueType::Lvalue, ty: t }),
+        None => format!("?{}", module.get_type_name_short(e.0)),
+    }
+}
+
+// ------------------------------------------------------------------------------------------- conversion table
+
+struct Real {
+    module: ir::Module,
+}
+
+impl Real {
+    fn new() -> Self {
+        Real { module: ir::Module::create() }
+    }
+
+    fn ty(&mut self, t: Ty) -> ir::TypeId {
+        let reg = &self.module.type_registry;
+        let sid = |s: u8| reg.register_type(ir::TypeLayer::Scalar(SCALARS[s as usize].0));
+        let base = match t.layer {
+            Layer::Scalar(s) => sid(s),
+            Layer::Vector(s, n) => {
+                let i = sid(s);
+                reg.register_type(ir::TypeLayer::Vector(i, n))
+            }
+            Layer::Matrix(s, x, y) => {
+                let i = sid(s);
+                reg.register_type(ir::TypeLayer::Matrix(i, x, y))
+            }
+            Layer::Enum(i) => reg.register_type(ir::TypeLayer::Enum(ir::EnumId(i))),
+            Layer::Other(i) => reg.register_type(ir::TypeLayer::Struct(ir::StructId(i))),
+        };
+        if t.mods.0 == 0 { base } else { reg.register_type(ir::TypeLayer::Modifier(modifier_of(t.mods), base)) }
+    }
+
+    fn ety(&mut self, e: ETy) -> ir::ExpressionType {
+        let id = self.ty(e.ty);
+        if e.lvalue { id.to_lvalue() } else { id.to_rvalue() }
+    }
+
+    fn conv_cell(&mut self, src: ETy, dst: ETy) -> String {
+        let s = self.ety(src);
+        let d = self.ety(dst);
+        let found = {
+            let module = &mut self.module;
+            guard(move || ImplicitConversion::find(s, d, module))
+        };
+        let conv = match found {
+            Err(_) => return "panic".into(),
+            Ok(Err(())) => return "err".into(),
+            Ok(Ok(c)) => c,
+        };
+        let target = {
+            let module = &mut self.module;
+            guard(move || conv.get_target_type(module))
+        };
+        match target {
+            Err(_) => "panic".to_string(),
+            Ok(e) => describe_ety(&self.module, e, &|i| Some(i)),
+        }
+    }
+
+    fn conv_row(&mut self, src: ETy, dsts: &[ETy], out: &mut Out, hist: &mut Hist) {
+        let req = format!("C03.conv\t{}\t{}", show_ety(src), dsts.iter().map(|d| show_ety(*d)).collect::<Vec<_>>().join(" "));
+        let cells: Vec<String> = dsts.iter().map(|d| self.conv_cell(src, *d)).collect();
+        let mut verdict = "ok".to_string();
+        for (d, c) in dsts.iter().zip(&cells) {
+            let found = c != "err";
+            hist.add(if c == "err" { "conv:err" } else if c == "panic" { "conv:panic" } else { "conv:found" });
+            if c == "panic" {
+                verdict = format!("FAIL:conv panic {} -> {}", show_ety(src), show_ety(*d));
+            } else if found && *c != show_ety(*d) {
+                // the conversion does not produce the destination it was asked for
+                let got = parse_ety(c);
+                let only_mods = got.map(|g| g.lvalue == d.lvalue && g.ty.layer == d.ty.layer).unwrap_or(false);
+                verdict = format!(
+                    "FAIL:conv target {} -> {} produces {}{}",
+                    show_ety(src),
+                    show_ety(*d),
+                    c,
+                    if only_mods { " (modifier-only)" } else { "" }
+                );
+            } else if found && !src.lvalue && d.lvalue {
+                verdict = format!("FAIL:conv rvalue {} converts to lvalue {}", show_ety(src), show_ety(*d));
+            } else if found && d.lvalue && src.ty.mods.0 & 1 != 0 && d.ty.mods.0 & 1 == 0 {
+                verdict = format!("FAIL:conv const {} converts to non-const lvalue {}", show_ety(src), show_ety(*d));
+            }
+        }
+        out.case(&req, &cells.join(" "), &verdict);
+    }
+}
+
+fn conv_universe(thorough: bool) -> Vec<ETy> {
+    let mut layers = Vec::new();
+    for s in 0..SCALARS.len() as u8 {
+        layers.push(Layer::Scalar(s));
+        for n in 1..=4 {
+            layers.push(Layer::Vector(s, n));
+        }
+        layers.push(Layer::Matrix(s, 2, 2));
+        layers.push(Layer::Matrix(s, 3, 2));
+        if thorough {
+            layers.push(Layer::Matrix(s, 1, 1));
+            layers.push(Layer::Matrix(s, 4, 4));
+        }
+    }
+    layers.push(Layer::Enum(0));
+    layers.push(Layer::Enum(1));
+    layers.push(Layer::Other(0));
+    layers.push(Layer::Other(1));
+    let mods: &[u8] = if thorough { &[0, 1, 2, 3, 4, 5, 9] } else { &[0, 1, 2, 4] };
+    let mut v = Vec::new();
+    for l in layers {
+        for m in mods {
+            for lv in [true, false] {
+                v.push(ETy { lvalue: lv, ty: Ty { mods: Mods(*m), layer: l } });
+            }
+        }
+    }
+    v
+}
+
+// ------------------------------------------------------------------------------------------- s-expressions
+
+#[derive(Clone, PartialEq, Eq, Debug)]
+enum Sx {
+    Atom(String),
+    List(Vec<Sx>),
+}
+
+fn parse_sx(s: &str) -> Option<Sx> {
+    fn go(t: &[String], i: &mut usize) -> Option<Sx> {
+        let tok = t.get(*i)?;
+        *i += 1;
+        if tok == "(" {
+            let mut v = Vec::new();
+            while t.get(*i)? != ")" {
+                v.push(go(t, i)?);
+            }
+            *i += 1;
+            Some(Sx::List(v))
+        } else if tok == ")" {
+            None
+        } else {
+            Some(Sx::Atom(tok.clone()))
+        }
+    }
+    let spaced = s.replace('(', " ( ").replace(')', " ) ");
+    let toks: Vec<String> = spaced.split_whitespace().map(|x| x.to_string()).collect();
+    let mut i = 0;
+    let r = go(&toks, &mut i)?;
+    if i == toks.len() { Some(r) } else { None }
+}
+
+fn show_sx(s: &Sx) -> String {
+    match s {
+        Sx::Atom(a) => a.clone(),
+        Sx::List(v) => format!("({})", v.iter().map(show_sx).collect::<Vec<_>>().join(" ")),
+    }
+}
+
+fn atom(s: &str) -> Sx {
+    Sx::Atom(s.to_string())
+}
+
+fn list(v: Vec<Sx>) -> Sx {
+    Sx::List(v)
+}
+
+fn head(s: &Sx) -> Option<(&str, &[Sx])> {
+    match s {
+        Sx::List(v) => match v.split_first() {
+            Some((Sx::Atom(h), rest)) => Some((h.as_str(), rest)),
+            _ => None,
+        },
+        _ => None,
+    }
+}
+
+fn atom_str(s: &Sx) -> Option<&str> {
+    match s {
+        Sx::Atom(a) => Some(a.as_str()),
+        _ => None,
+    }
+}
+
+// ------------------------------------------------------------------------------------------- programs
+
+#[derive(Clone, Debug)]
+struct Envr {
+    vars: Vec<Ty>,
+    funcs: Vec<Func>,
+    ret: Option<Ty>,
+}
+
+fn show_env(e: &Envr) -> String {
+    let vars = if e.vars.is_empty() { "-".to_string() } else { e.vars.iter().map(|t| show_ty(*t)).collect::<Vec<_>>().join(",") };
+    let funcs = if e.funcs.is_empty() { "-".to_string() } else { e.funcs.iter().map(show_func).collect::<Vec<_>>().join(";") };
+    let ret = match e.ret {
+        None => "void".to_string(),
+        Some(t) => show_ty(t),
+    };
+    format!("{}\t{}\t{}", vars, funcs, ret)
+}
+
+fn parse_env(vars: &str, funcs: &str, ret: &str) -> Option<Envr> {
+    let vars: Option<Vec<Ty>> = if vars == "-" { Some(vec![]) } else { vars.split(',').map(parse_ty).collect() };
+    let funcs: Option<Vec<Func>> = if funcs == "-" { Some(vec![]) } else { funcs.split(';').map(parse_func).collect() };
+    let ret = if ret == "void" { None } else { Some(parse_ty(ret)?) };
+    Some(Envr { vars: vars?, funcs: funcs?, ret })
+}
+
+fn spell_base(l: Layer) -> Option<String> {
+    let sc = |s: u8| {
+        let n = SCALARS[s as usize].2;
+        if n.is_empty() { None } else { Some(n) }
+    };
+    Some(match l {
+        Layer::Scalar(s) => sc(s)?.to_string(),
+        Layer::Vector(s, n) if (1..=4).contains(&n) => format!("{}{}", sc(s)?, n),
+        Layer::Matrix(s, x, y) if (1..=4).contains(&x) && (1..=4).contains(&y) => format!("{}{}x{}", sc(s)?, x, y),
+        Layer::Other(i) => format!("S{}", i),
+        _ => return None,
+    })
+}
+
+fn spell(t: Ty) -> Option<String> {
+    let mut s = String::new();
+    for (i, w) in MOD_WORDS.iter().enumerate() {
+        if t.mods.0 & (1 << i) != 0 {
+            s.push_str(w);
+            s.push(' ');
+        }
+    }
+    s.push_str(&spell_base(t.layer)?);
+    Some(s)
+}
+
+fn spell_expr(e: &Sx) -> Option<String> {
+    let (h, a) = head(e)?;
+    Some(match (h, a) {
+        ("lit", [k]) => match atom_str(k)? {
+            "Bool" => "true".into(),
+            "IntLiteral" => "1".into(),
+            "UInt32" => "1u".into(),
+            "FloatLiteral" => "1.0".into(),
+            "Float16" => "1.0h".into(),
+            "Float32" => "1.0f".into(),
+            "Float64" => "1.0L".into(),
+            _ => return None,
+        },
+        ("var", [i]) => format!("v{}", atom_str(i)?.parse::<u32>().ok()?),
+        ("un", [op, x]) => {
+            let x = spell_expr(x)?;
+            match atom_str(op)? {
+                "PrefixIncrement" => format!("(++{})", x),
+                "PrefixDecrement" => format!("(--{})", x),
+                "PostfixIncrement" => format!("({}++)", x),
+                "PostfixDecrement" => format!("({}--)", x),
+                "Plus" => format!("(+{})", x),
+                "Minus" => format!("(-{})", x),
+                "LogicalNot" => format!("(!{})", x),
+                "BitwiseNot" => format!("(~{})", x),
+                _ => return None,
+            }
+        }
+        ("bin", [op, x, y]) => {
+            let sym = match atom_str(op)? {
+                "Add" => "+",
+                "Subtract" => "-",
+                "Multiply" => "*",
+                "Divide" => "/",
+                "Modulus" => "%",
+                "LeftShift" => "<<",
+                "RightShift" => ">>",
+                "BitwiseAnd" => "&",
+                "BitwiseOr" => "|",
+                "BitwiseXor" => "^",
+                "BooleanAnd" => "&&",
+                "BooleanOr" => "||",
+                "LessThan" => "<",
+                "LessEqual" => "<=",
+                "GreaterThan" => ">",
+                "GreaterEqual" => ">=",
+                "Equality" => "==",
+                "Inequality" => "!=",
+                "Assignment" => "=",
+                "SumAssignment" => "+=",
+                "DifferenceAssignment" => "-=",
+                "ProductAssignment" => "*=",
+                "QuotientAssignment" => "/=",
+                "RemainderAssignment" => "%=",
+                "LeftShiftAssignment" => "<<=",
+                "RightShiftAssignment" => ">>=",
+                "BitwiseAndAssignment" => "&=",
+                "BitwiseOrAssignment" => "|=",
+                "BitwiseXorAssignment" => "^=",
+                "Sequence" => ",",
+                _ => return None,
+            };
+            format!("({} {} {})", spell_expr(x)?, sym, spell_expr(y)?)
+        }
+        ("tern", [c, x, y]) => format!("({} ? {} : {})", spell_expr(c)?, spell_expr(x)?, spell_expr(y)?),
+        ("call", [name, args @ ..]) => {
+            let a: Option<Vec<String>> = args.iter().map(spell_expr).collect();
+            format!("f{}({})", atom_str(name)?.parse::<u32>().ok()?, a?.join(", "))
+        }
+        ("cast", [t, x]) => format!("(({}){})", spell(parse_ty(atom_str(t)?)?)?, spell_expr(x)?),
+        _ => return None,
+    })
+}
+
+fn note_layer(l: Layer, others: &mut Vec<u32>) {
+    if let Layer::Other(i) = l {
+        if !others.contains(&i) {
+            others.push(i);
+        }
+    }
+}
+
+fn layers_in_expr(e: &Sx, others: &mut Vec<u32>) {
+    if let Some((h, a)) = head(e) {
+        if h == "cast" || h == "init" {
+            if let Some(t) = a.first().and_then(atom_str).and_then(parse_ty) {
+                note_layer(t.layer, others);
+            }
+        }
+        for x in a {
+            layers_in_expr(x, others);
+        }
+    }
+}
+
+/// the RSSL program for a request; `with_stmt = false` gives the prelude alone (declarations only)
+fn program(env: &Envr, stmt: &Sx, with_stmt: bool) -> Option<String> {
+    let mut others = Vec::new();
+    for v in &env.vars {
+        note_layer(v.layer, &mut others);
+    }
+    for f in &env.funcs {
+        note_layer(f.ret.layer, &mut others);
+        for p in &f.params {
+            note_layer(p.ty.layer, &mut others);
+        }
+    }
+    if let Some(t) = env.ret {
+        note_layer(t.layer, &mut others);
+    }
+    layers_in_expr(stmt, &mut others);
+    others.sort();
+    let mut s = String::new();
+    for i in &others {
+        s.push_str(&format!("struct S{} {{ int q; }};\n", i));
+    }
+    for f in &env.funcs {
+        if f.non_default > f.params.len() {
+            return None;
+        }
+        let mut ps = Vec::new();
+        for (i, p) in f.params.iter().enumerate() {
+            let io = match p.io {
+                Io::In => "",
+                Io::Out => "out ",
+                Io::InOut => "inout ",
+            };
+            let mut d = format!("{}{} p{}", io, spell(p.ty)?, i);
+            if i >= f.non_default {
+                if p.io != Io::In || !matches!(p.ty.layer, Layer::Scalar(_) | Layer::Vector(..) | Layer::Matrix(..)) {
+                    return None;
+                }
+                d.push_str(&format!(" = ({})0", spell_base(p.ty.layer)?));
+            }
+            ps.push(d);
+        }
+        s.push_str(&format!("{} f{}({});\n", spell(f.ret)?, f.name, ps.join(", ")));
+    }
+    let ret = match env.ret {
+        None => "void".to_string(),
+        Some(t) => spell(t)?,
+    };
+    s.push_str(&format!("{} t() {{\n", ret));
+    for (i, v) in env.vars.iter().enumerate() {
+        if v.mods.0 & 1 != 0 {
+            s.push_str(&format!("    {} v{} = ({})0;\n", spell(*v)?, i, spell_base(v.layer)?));
+        } else {
+            s.push_str(&format!("    {} v{};\n", spell(*v)?, i));
+        }
+    }
+    if with_stmt {
+        let (h, a) = head(stmt)?;
+        match (h, a) {
+            ("expr", [e]) => s.push_str(&format!("    {};\n", spell_expr(e)?)),
+            ("ret", []) => s.push_str("    return;\n"),
+            ("ret", [e]) => s.push_str(&format!("    return {};\n", spell_expr(e)?)),
+            ("init", [t, e]) => s.push_str(&format!("    {} w = {};\n", spell(parse_ty(atom_str(t)?)?)?, spell_expr(e)?)),
+            _ => return None,
+        }
+    }
+    s.push_str("}\n");
+    Some(s)
+}
+
+enum Checked {
+    Accept(ir::Module),
+    Reject(String),
+    Front(String),
+}
+
+fn type_check(src: &str) -> Checked {
+    let mut sm = rssl::text::SourceManager::new();
+    let mut inc = MemFiles(vec![("main.rssl".to_string(), src.to_string())]);
+    let tokens = match rssl::preprocess::preprocess("main.rssl", &mut sm, &mut inc, &[]) {
+        Ok(t) => t,
+        Err(_) => return Checked::Front("preprocess".into()),
+    };
+    let tokens = rssl::preprocess::prepare_tokens(&tokens);
+    let ast = match rssl::parser::parse(&tokens) {
+        Ok(a) => a,
+        Err(_) => return Checked::Front("parse".into()),
+    };
+    match rssl::typer::type_check(&ast) {
+        Ok(m) => Checked::Accept(m),
+        Err(e) => {
+            let d = format!("{:?}", e.0);
+            Checked::Reject(d.chars().take_while(|c| c.is_alphanumeric()).collect())
+        }
+    }
+}
+
+// ------------------------------------------------------------------------------------------- IR dump
+
+struct Names {
+    /// StructId -> `o.<k>`
+    structs: Vec<(u32, u32)>,
+    /// FunctionId -> index in the request's function list
+    funcs: Vec<(u32, u32)>,
+}
+
+impl Names {
+    fn build(module: &ir::Module) -> Names {
+        let mut structs = Vec::new();
+        for (i, sd) in module.struct_registry.iter().enumerate() {
+            let n: &str = &sd.name.node;
+            if let Some(k) = n.strip_prefix('S').and_then(|x| x.parse::<u32>().ok()) {
+                structs.push((i as u32, k));
+            }
+        }
+        let mut funcs = Vec::new();
+        let mut k = 0u32;
+        for rd in &module.root_definitions {
+            if let ir::RootDefinition::FunctionDeclaration(id) = rd {
+                funcs.push((id.0, k));
+                k += 1;
+            }
+        }
+        Names { structs, funcs }
+    }
+    fn st(&self, id: u32) -> Option<u32> {
+        self.structs.iter().find(|x| x.0 == id).map(|x| x.1)
+    }
+    fn func(&self, id: u32) -> Option<u32> {
+        self.funcs.iter().find(|x| x.0 == id).map(|x| x.1)
+    }
+}
+
+fn constant_kind(c: &ir::Constant) -> &'static str {
+    match c {
+        ir::Constant::Bool(_) => "Bool",
+        ir::Constant::IntLiteral(_) => "IntLiteral",
+        ir::Constant::Int32(_) => "Int32",
+        ir::Constant::UInt32(_) => "UInt32",
+        ir::Constant::FloatLiteral(_) => "FloatLiteral",
+        ir::Constant::Float16(_) => "Float16",
+        ir::Constant::Float32(_) => "Float32",
+        ir::Constant::Float64(_) => "Float64",
+        _ => "?",
+    }
+}
+
+fn dump_expr(module: &ir::Module, names: &Names, e: &ir::Expression) -> Sx {
+    match e {
+        ir::Expression::Literal(c) => list(vec![atom("lit"), atom(constant_kind(c))]),
+        ir::Expression::Variable(id) => {
+            let name: &str = &module.variable_registry.get_local_variable(*id).name.node;
+            match name.strip_prefix('v').and_then(|x| x.parse::<u32>().ok()) {
+                Some(i) => list(vec![atom("var"), atom(&i.to_string())]),
+                None => list(vec![atom("var"), atom(&format!("?{}", name))]),
+            }
+        }
+        ir::Expression::TernaryConditional(c, a, b) => {
+            list(vec![atom("tern"), dump_expr(module, names, c), dump_expr(module, names, a), dump_expr(module, names, b)])
+        }
+        ir::Expression::Sequence(v) => {
+            let mut l = vec![atom("seq")];
+            l.extend(v.iter().map(|x| dump_expr(module, names, x)));
+            list(l)
+        }
+        ir::Expression::Call(id, _, args) => {
+            let f = match names.func(id.0) {
+                Some(k) => k.to_string(),
+                None => format!("?{}", module.function_registry.get_function_name(*id)),
+            };
+            let mut l = vec![atom("call"), atom(&f)];
+            l.extend(args.iter().map(|x| dump_expr(module, names, x)));
+            list(l)
+        }
+        ir::Expression::Cast(t, x) => {
+            let ts = match describe(module, *t, &|i| names.st(i)) {
+                Some(t) => show_ty(t),
+                None => format!("?{}", module.get_type_name_short(*t)),
+            };
+            list(vec![atom("cast"), atom(&ts), dump_expr(module, names, x)])
+        }
+        ir::Expression::IntrinsicOp(op, args) => {
+            let mut l = vec![atom("op"), atom(&format!("{:?}", op))];
+            l.extend(args.iter().map(|x| dump_expr(module, names, x)));
+            list(l)
+        }
+        other => {
+            let d = format!("{:?}", other);
+            atom(&format!("?{}", d.chars().take_while(|c| c.is_alphanumeric()).collect::<String>()))
+        }
+    }
+}
+
+fn type_string(module: &ir::Module, names: &Names, e: &ir::Expression) -> String {
+    match guard(|| e.get_type(module)) {
+        Err(_) => "panic".into(),
+        Ok(Err(_)) => "invalid".into(),
+        Ok(Ok(t)) => describe_ety(module, t, &|i| names.st(i)),
+    }
+}
+
+/// the typed form of the request's statement: the last statement of function `t`
+fn dump_stmt(module: &ir::Module, names: &Names) -> Option<(Sx, String)> {
+    let id = module.function_registry.iter().find(|id| module.function_registry.get_function_name(*id) == "t")?;
+    let imp = module.function_registry.get_function_implementation(id).as_ref()?;
+    let last = imp.scope_block.0.last()?;
+    Some(match &last.kind {
+        ir::StatementKind::Expression(e) => (list(vec![atom("expr"), dump_expr(module, names, e)]), type_string(module, names, e)),
+        ir::StatementKind::Return(None) => (list(vec![atom("ret")]), "void".into()),
+        ir::StatementKind::Return(Some(e)) => (list(vec![atom("ret"), dump_expr(module, names, e)]), type_string(module, names, e)),
+        ir::StatementKind::Var(vd) => {
+            let var = module.variable_registry.get_local_variable(vd.id);
+            let ts = describe(module, var.type_id, &|i| names.st(i)).map(show_ty).unwrap_or_else(|| "?".into());
+            match &vd.init {
+                Some(ir::Initializer::Expression(e)) => {
+                    (list(vec![atom("init"), atom(&ts), dump_expr(module, names, e)]), type_string(module, names, e))
+                }
+                _ => return None,
+            }
+        }
+        _ => return None,
+    })
+}
+
+// ------------------------------------------------------------------------------------------- oracle (property text)
+
+struct Walk<'a> {
+    module: &'a ir::Module,
+    names: &'a Names,
+    errors: Vec<String>,
+    nodes: u64,
+}
+
+impl<'a> Walk<'a> {
+    fn ty(&mut self, e: &ir::Expression) -> Option<ir::ExpressionType> {
+        let module = self.module;
+        match guard(|| e.get_type(module)) {
+            Err(p) => {
+                self.errors.push(format!("get_type panics: {}", p));
+                None
+            }
+            Ok(Err(_)) => {
+                self.errors.push("get_type: InvalidModule".to_string());
+                None
+            }
+            Ok(Ok(t)) => {
+                if t.0.0 >= self.module.type_registry.get_type_count() {
+                    self.errors.push("type id out of range".to_string());
+                    None
+                } else {
+                    Some(t)
+                }
+            }
+        }
+    }
+
+    fn show(&self, t: ir::TypeId) -> String {
+        describe(self.module, t, &|i| self.names.st(i)).map(show_ty).unwrap_or_else(|| self.module.get_type_name_short(t))
+    }
+
+    fn is_const(&self, t: ir::TypeId) -> bool {
+        self.module.type_registry.extract_modifier(t).1.is_const
+    }
+
+    fn require(&mut self, what: &str, required: ir::TypeId, got: ir::TypeId) {
+        if required != got {
+            let reg = &self.module.type_registry;
+            let only_mods = reg.remove_modifier(required) == reg.remove_modifier(got);
+            self.errors.push(format!(
+                "inexact {}: requires {} but receives {}{}",
+                what,
+                self.show(required),
+                self.show(got),
+                if only_mods { " (modifier-only)" } else { "" }
+            ));
+        }
+    }
+
+    fn expr(&mut self, e: &ir::Expression) {
+        self.nodes += 1;
+        let m = self.module;
+        // every expression has a well-defined type
+        let _ = self.ty(e);
+        match e {
+            ir::Expression::Literal(_) => {}
+            ir::Expression::Variable(id) => {
+                if id.0 >= m.variable_registry.get_variable_count() {
+                    self.errors.push("variable id out of range".into());
+                }
+            }
+            ir::Expression::Global(id) => {
+                if id.0 as usize >= m.global_registry.len() {
+                    self.errors.push("global id out of range".into());
+                }
+            }
+            ir::Expression::MemberVariable(id, idx) | ir::Expression::StructMember(_, id, idx) => {
+                if id.0 as usize >= m.struct_registry.len() || *idx as usize >= m.struct_registry[id.0 as usize].members.len() {
+                    self.errors.push("struct member out of range".into());
+                }
+                if let ir::Expression::StructMember(x, _, _) = e {
+                    self.expr(x);
+                }
+            }
+            ir::Expression::ConstantVariable(id) => {
+                if id.0.0 as usize >= m.cbuffer_registry.len() || id.1 as usize >= m.cbuffer_registry[id.0.0 as usize].members.len() {
+                    self.errors.push("constant buffer member out of range".into());
+                }
+            }
+            ir::Expression::EnumValue(_) | ir::Expression::SizeOf(_) => {}
+            ir::Expression::TernaryConditional(c, a, b) => {
+                self.expr(c);
+                self.expr(a);
+                self.expr(b);
+                let bool_ty = m.type_registry.register_type(ir::TypeLayer::Scalar(ScalarType::Bool));
+                if let Some(tc) = self.ty(c) {
+                    self.require("ternary condition", bool_ty, tc.0);
+                }
+                if let (Some(ta), Some(tb)) = (self.ty(a), self.ty(b)) {
+                    self.require("ternary arms", ta.0, tb.0);
+                }
+            }
+            ir::Expression::Sequence(v) => {
+                if v.is_empty() {
+                    self.errors.push("empty sequence".into());
+                }
+                for x in v {
+                    self.expr(x);
+                }
+            }
+            ir::Expression::Swizzle(x, _) | ir::Expression::MatrixSwizzle(x, _) | ir::Expression::ObjectMember(x, _) => self.expr(x),
+            ir::Expression::ArraySubscript(a, i) => {
+                self.expr(a);
+                self.expr(i);
+            }
+            ir::Expression::Constructor(_, slots) => {
+                for s in slots {
+                    self.expr(&s.expr);
+                }
+            }
+            ir::Expression::Cast(t, x) => {
+                if t.0 >= m.type_registry.get_type_count() {
+                    self.errors.push("cast type id out of range".into());
+                }
+                self.expr(x);
+            }
+            ir::Expression::Call(id, ct, args) => {
+                for a in args {
+                    self.expr(a);
+                }
+                if id.0 >= m.function_registry.get_function_count() {
+                    self.errors.push("function id out of range".into());
+                    return;
+                }
+                // user functions called as free functions: arguments are exactly the parameter types
+                if m.function_registry.get_intrinsic_data(*id).is_none() && *ct == ir::CallType::FreeFunction {
+                    let sig = m.function_registry.get_function_signature(*id).clone();
+                    if args.len() > sig.param_types.len() || args.len() < sig.non_default_params {
+                        self.errors.push(format!("call with {} arguments, signature takes {}..{}", args.len(), sig.non_default_params, sig.param_types.len()));
+                    }
+                    for (a, p) in args.iter().zip(sig.param_types.iter()) {
+                        if let Some(ta) = self.ty(a) {
+                            self.require("call argument", p.type_id, ta.0);
+                            if p.input_modifier != ir::InputModifier::In {
+                                if ta.1 != ir::ValueType::Lvalue {
+                                    let what = match a {
+                                        ir::Expression::Cast(_, inner) => match self.ty(inner) {
+                                            Some(ti) if ti.1 == ir::ValueType::Lvalue => {
+                                                format!(": Cast of lvalue {} to {}", self.show(ti.0), self.show(p.type_id))
+                                            }
+                                            _ => String::new(),
+                                        },
+                                        _ => String::new(),
+                                    };
+                                    self.errors.push(format!("rvalue passed to out/inout parameter{}", what));
+                                }
+                                if self.is_const(ta.0) {
+                                    self.errors.push("const passed to out/inout parameter".into());
+                                }
+                            }
+                        }
+                    }
+                }
+            }
+            ir::Expression::IntrinsicOp(op, args) => {
+                for a in args {
+                    self.expr(a);
+                }
+                use ir::IntrinsicOp::*;
+                let tys: Vec<Option<ir::ExpressionType>> = args.iter().map(|a| self.ty(a)).collect();
+                match op {
+                    PrefixIncrement | PrefixDecrement | PostfixIncrement | PostfixDecrement => {
+                        if args.len() != 1 {
+                            self.errors.push("increment arity".into());
+                        } else if let Some(t) = tys[0] {
+                            if t.1 != ir::ValueType::Lvalue {
+                                self.errors.push("increment of rvalue".into());
+                            }
+                            if self.is_const(t.0) {
+                                self.errors.push("increment of const".into());
+                            }
+                            let base = m.type_registry.remove_modifier(t.0);
+                            let numeric = matches!(
+                                m.type_registry.get_type_layer(base),
+                                ir::TypeLayer::Scalar(_) | ir::TypeLayer::Vector(..) | ir::TypeLayer::Matrix(..)
+                            );
+                            if !numeric || m.type_registry.extract_scalar(base) == Some(ScalarType::Bool) {
+                                self.errors.push(format!("increment of a non-numeric operand: {}", self.show(t.0)));
+                            }
+                        }
+                    }
+                    Plus | Minus | LogicalNot | BitwiseNot => {
+                        if args.len() != 1 {
+                            self.errors.push("unary arity".into());
+                        }
+                    }
+                    Add | Subtract | Multiply | Divide | Modulus | LeftShift | RightShift | BitwiseAnd | BitwiseOr | BitwiseXor
+                    | BooleanAnd | BooleanOr | LessThan | LessEqual | GreaterThan | GreaterEqual | Equality | Inequality => {
+                        if args.len() != 2 {
+                            self.errors.push("binary arity".into());
+                        } else if let (Some(a), Some(b)) = (tys[0], tys[1]) {
+                            self.require("binary operand", a.0, b.0);
+                            if matches!(op, BooleanAnd | BooleanOr) {
+                                let bool_ty = m.type_registry.register_type(ir::TypeLayer::Scalar(ScalarType::Bool));
+                                self.require("logical operand", bool_ty, a.0);
+                            }
+                        }
+                    }
+                    Assignment | SumAssignment | DifferenceAssignment | ProductAssignment | QuotientAssignment | RemainderAssignment
+                    | LeftShiftAssignment | RightShiftAssignment | BitwiseAndAssignment | BitwiseOrAssignment | BitwiseXorAssignment => {
+                        if args.len() != 2 {
+                            self.errors.push("assignment arity".into());
+                        } else if let (Some(a), Some(b)) = (tys[0], tys[1]) {
+                            if a.1 != ir::ValueType::Lvalue {
+                                self.errors.push("assignment to rvalue".into());
+                            }
+                            if self.is_const(a.0) {
+                                self.errors.push("assignment to const".into());
+                            }
+                            self.require("assigned value", a.0, b.0);
+                        }
+                    }
+                    _ => {}
+                }
+            }
+        }
+    }
+
+    fn init(&mut self, i: &ir::Initializer, required: Option<ir::TypeId>) {
+        match i {
+            ir::Initializer::Expression(e) => {
+                self.expr(e);
+                if let (Some(r), Some(t)) = (required, self.ty(e)) {
+                    let r = self.module.type_registry.remove_modifier(r);
+                    self.require("initialiser", r, t.0);
+                }
+            }
+            ir::Initializer::Aggregate(v) => {
+                for x in v {
+                    self.init(x, None);
+                }
+            }
+        }
+    }
+
+    fn vardef(&mut self, vd: &ir::VarDef) {
+        if vd.id.0 >= self.module.variable_registry.get_variable_count() {
+            self.errors.push("variable id out of range".into());
+            return;
+        }
+        let ty = self.module.variable_registry.get_local_variable(vd.id).type_id;
+        if let Some(i) = &vd.init {
+            self.init(i, Some(ty));
+        }
+    }
+
+    fn block(&mut self, b: &ir::ScopeBlock, ret: ir::TypeId) {
+        for s in &b.0 {
+            match &s.kind {
+                ir::StatementKind::Expression(e) => self.expr(e),
+                ir::StatementKind::Var(vd) => self.vardef(vd),
+                ir::StatementKind::Block(b) => self.block(b, ret),
+                ir::StatementKind::If(c, b) | ir::StatementKind::While(c, b) | ir::StatementKind::Switch(c, b) => {
+                    self.expr(c);
+                    self.block(b, ret);
+                }
+                ir::StatementKind::DoWhile(b, c) => {
+                    self.block(b, ret);
+                    self.expr(c);
+                }
+                ir::StatementKind::IfElse(c, a, b) => {
+                    self.expr(c);
+                    self.block(a, ret);
+                    self.block(b, ret);
+                }
+                ir::StatementKind::For(i, c, n, b) => {
+                    match i {
+                        ir::ForInit::Empty => {}
+                        ir::ForInit::Expression(e) => self.expr(e),
+                        ir::ForInit::Definitions(v) => {
+                            for vd in v {
+                                self.vardef(vd);
+                            }
+                        }
+                    }
+                    if let Some(c) = c {
+                        self.expr(c);
+                    }
+                    if let Some(n) = n {
+                        self.expr(n);
+                    }
+                    self.block(b, ret);
+                }
+                ir::StatementKind::Return(Some(e)) => {
+                    self.expr(e);
+                    if let Some(t) = self.ty(e) {
+                        self.require("return", ret, t.0);
+                    }
+                }
+                ir::StatementKind::Return(None) => {
+                    if !self.module.type_registry.is_void(ret) {
+                        self.errors.push("return without value in non-void function".into());
+                    }
+                }
+                _ => {}
+            }
+        }
+    }
+}
+
+/// walk every function body of an accepted module; returns (node count, violations)
+fn walk_module(module: &ir::Module, names: &Names) -> (u64, Vec<String>) {
+    let mut w = Walk { module, names, errors: Vec::new(), nodes: 0 };
+    for id in module.function_registry.iter() {
+        if module.function_registry.get_intrinsic_data(id).is_some() {
+            continue;
+        }
+        if let Some(imp) = module.function_registry.get_function_implementation(id) {
+            let ret = module.function_registry.get_function_signature(id).return_type.return_type;
+            for p in &imp.params {
+                if let Some(d) = &p.default_expr {
+                    w.expr(d);
+                }
+            }
+            w.block(&imp.scope_block, ret);
+        }
+    }
+    (w.nodes, w.errors)
+}
+
+// ------------------------------------------------------------------------------------------- running a request
+
+fn stmt_expr(stmt: &Sx) -> Option<&Sx> {
+    match head(stmt)? {
+        ("expr", [e]) | ("ret", [e]) | ("init", [_, e]) => Some(e),
+        _ => None,
+    }
+}
+
+fn sub_exprs(e: &Sx) -> Vec<&Sx> {
+    match head(e) {
+        Some(("un", [_, x])) | Some(("cast", [_, x])) => vec![x],
+        Some(("bin", [_, x, y])) => vec![x, y],
+        Some(("tern", [c, x, y])) => vec![c, x, y],
+        Some(("call", [_, xs @ ..])) => xs.iter().collect(),
+        _ => vec![],
+    }
+}
+
+/// `(expr e)` in the environment: Err = panics, Ok(type of the typed expression or the diagnostic)
+fn probe(env: &Envr, e: &Sx) -> Result<String, String> {
+    let stmt = s_expr(e.clone());
+    let Some(src) = program(env, &stmt, true) else {
+        return Ok("?".into());
+    };
+    match guard(|| type_check(&src)) {
+        Err(p) => Err(p),
+        Ok(Checked::Accept(m)) => {
+            let names = Names::build(&m);
+            Ok(dump_stmt(&m, &names).map(|x| x.1).unwrap_or_else(|| "?".into()))
+        }
+        Ok(Checked::Reject(k)) => Ok(format!("reject:{}", k)),
+        Ok(Checked::Front(k)) => Ok(format!("front:{}", k)),
+    }
+}
+
+/// the innermost sub-expression that panics on its own, written with the types of its operands
+fn innermost_panic(env: &Envr, e: &Sx) -> String {
+    for c in sub_exprs(e) {
+        if probe(env, c).is_err() {
+            return innermost_panic(env, c);
+        }
+    }
+    let tys: Vec<String> = sub_exprs(e).iter().map(|c| probe(env, c).unwrap_or_else(|_| "panic".into())).collect();
+    match head(e) {
+        Some((h @ ("un" | "bin"), [op, ..])) => format!("({} {} {})", h, atom_str(op).unwrap_or("?"), tys.join(" ")),
+        Some(("call", [n, ..])) => format!("(call {} {})", atom_str(n).unwrap_or("?"), tys.join(" ")),
+        Some(("cast", [t, ..])) => format!("(cast {} {})", atom_str(t).unwrap_or("?"), tys.join(" ")),
+        Some((h, _)) => format!("({} {})", h, tys.join(" ")),
+        None => "?".into(),
+    }
+}
+
+fn panic_file(p: &str) -> String {
+    let loc = p.split(':').next().unwrap_or("?");
+    loc.rsplit('/').next().unwrap_or("?").to_string()
+}
+
+struct Runner {
+    hist: Hist,
+    compiles: u64,
+    nodes: u64,
+    typed: Vec<String>,
+}
+
+impl Runner {
+    fn prog_case(&mut self, env: &Envr, stmt: &Sx, expect: &str, out: &mut Out) {
+        let req = format!("C03.prog\t{}\t{}\t{}", show_env(env), show_sx(stmt), expect);
+        let (Some(prelude), Some(src)) = (program(env, stmt, false), program(env, stmt, true)) else {
+            out.case(&req, "-", "SKIP:not expressible as an RSSL program");
+            self.hist.add("prog:skip-inexpressible");
+            return;
+        };
+        // the declarations alone must be accepted, otherwise the request says nothing about the statement
+        self.compiles += 2;
+        match guard(|| type_check(&prelude)) {
+            Ok(Checked::Accept(m)) => {
+                let n = Names::build(&m);
+                if n.funcs.len() != env.funcs.len() {
+                    out.case(&req, "-", "SKIP:function declarations were merged");
+                    self.hist.add("prog:skip-prelude");
+                    return;
+                }
+            }
+            _ => {
+                out.case(&req, "-", "SKIP:declarations are not accepted");
+                self.hist.add("prog:skip-prelude");
+                return;
+            }
+        }
+        let res = guard(|| type_check(&src));
+        let (obs, oracle) = match res {
+            Err(p) => {
+                self.hist.add("verdict:panic");
+                // locate the innermost sub-expression whose elaboration panics and describe it by its operand types
+                let at = stmt_expr(stmt).map(|e| innermost_panic(env, e)).unwrap_or_else(|| "?".to_string());
+                self.compiles += 4;
+                (format!("panic {}", panic_file(&p)), format!("FAIL:panic {} @ {}", p, at))
+            }
+            Ok(Checked::Front(stage)) => {
+                self.hist.add("prog:skip-front");
+                (format!("front {}", stage), "SKIP:rejected before type checking".to_string())
+            }
+            Ok(Checked::Reject(kind)) => {
+                self.hist.add("verdict:reject");
+                self.hist.add(&format!("reject:{}", kind));
+                if expect == "accept" {
+                    self.hist.add("expect-accept-but-rejected");
+                }
+                (format!("reject {}", kind), "ok".to_string())
+            }
+            Ok(Checked::Accept(m)) => {
+                self.hist.add("verdict:accept");
+                let names = Names::build(&m);
+                let (nodes, errors) = walk_module(&m, &names);
+                self.nodes += nodes;
+                let obs = match dump_stmt(&m, &names) {
+                    Some((sx, ty)) => {
+                        let s = show_sx(&sx);
+                        if !s.contains('?') && self.typed.len() < 100_000 {
+                            self.typed.push(format!("C03.type\t{}\t{}", show_env(env), s));
+                        }
+                        format!("accept {} : {}", s, ty)
+                    }
+                    None => "accept ?".to_string(),
+                };
+                let oracle = if expect == "reject" {
+                    "FAIL:accepted a program carrying an injected typing violation".to_string()
+                } else if let Some(e) = errors.first() {
+                    format!("FAIL:{}", e)
+                } else {
+                    "ok".to_string()
+                };
+                (obs, oracle)
+            }
+        };
+        self.hist.add(&format!("expect:{}", expect));
+        if let Some((h, _)) = head(stmt) {
+            self.hist.add(&format!("stmt:{}", h));
+        }
+        count_nodes(stmt, &mut self.hist);
+        out.case(&req, &obs, &oracle);
+    }
+
+    /// C03.type: the real `get_type` of every node of a typed statement, in pre-order
+    fn type_case(&mut self, env: &Envr, typed: &Sx, out: &mut Out) {
+        let req = format!("C03.type\t{}\t{}", show_env(env), show_sx(typed));
+        // rebuild the program from the typed form: the typed statement is re-elaborated from an equivalent source
+        // (casts explicit), so instead the original program is recompiled: the request carries no source, hence the
+        // typed statement is rebuilt directly as IR over a module holding the declarations.
+        let Some(prelude) = program(env, &list(vec![atom("ret")]), false) else {
+            out.case(&req, "-", "SKIP:not expressible");
+            return;
+        };
+        let m = match guard(|| type_check(&prelude)) {
+            Ok(Checked::Accept(m)) => m,
+            _ => {
+                out.case(&req, "-", "SKIP:declarations are not accepted");
+                return;
+            }
+        };
+        let names = Names::build(&m);
+        let Some((_, args)) = head(typed) else {
+            out.case(&req, "-", "SKIP:bad request");
+            return;
+        };
+        let e = match args.last() {
+            Some(e @ Sx::List(_)) => e,
+            _ => {
+                out.case(&req, "void", "ok");
+                return;
+            }
+        };
+        let mut b = Build { module: &m, names: &names };
+        match b.expr(e) {
+            None => out.case(&req, "-", "SKIP:cannot rebuild the IR"),
+            Some(ir_e) => {
+                let mut tys = Vec::new();
+                preorder_types(&m, &names, &ir_e, &mut tys);
+                self.hist.add("type:rows");
+                out.case(&req, &tys.join(" "), "ok");
+            }
+        }
+    }
+}
+
+fn preorder_types(m: &ir::Module, names: &Names, e: &ir::Expression, out: &mut Vec<String>) {
+    out.push(type_string(m, names, e));
+    match e {
+        ir::Expression::TernaryConditional(c, a, b) => {
+            preorder_types(m, names, c, out);
+            preorder_types(m, names, a, out);
+            preorder_types(m, names, b, out);
+        }
+        ir::Expression::Sequence(v) | ir::Expression::Call(_, _, v) | ir::Expression::IntrinsicOp(_, v) => {
+            for x in v {
+                preorder_types(m, names, x, out);
+            }
+        }
+        ir::Expression::Cast(_, x) => preorder_types(m, names, x, out),
+        _ => {}
+    }
+}
+
+/// rebuild `ir::Expression` from the typed s-expression over a module holding the declarations
+struct Build<'a> {
+    module: &'a ir::Module,
+    names: &'a Names,
+}
+
+impl<'a> Build<'a> {
+    fn type_id(&self, t: Ty) -> Option<ir::TypeId> {
+        let reg = &self.module.type_registry;
+        let sid = |s: u8| reg.register_type(ir::TypeLayer::Scalar(SCALARS[s as usize].0));
+        let base = match t.layer {
+            Layer::Scalar(s) => sid(s),
+            Layer::Vector(s, n) => {
+                let i = sid(s);
+                reg.register_type(ir::TypeLayer::Vector(i, n))
+            }
+            Layer::Matrix(s, x, y) => {
+                let i = sid(s);
+                reg.register_type(ir::TypeLayer::Matrix(i, x, y))
+            }
+            Layer::Other(k) => {
+                let sid = self.names.structs.iter().find(|x| x.1 == k)?.0;
+                reg.register_type(ir::TypeLayer::Struct(ir::StructId(sid)))
+            }
+            Layer::Enum(_) => return None,
+        };
+        Some(if t.mods.0 == 0 { base } else { reg.register_type(ir::TypeLayer::Modifier(modifier_of(t.mods), base)) })
+    }
+
+    fn expr(&mut self, e: &Sx) -> Option<ir::Expression> {
+        let (h, a) = head(e)?;
+        Some(match (h, a) {
+            ("lit", [k]) => ir::Expression::Literal(match atom_str(k)? {
+                "Bool" => ir::Constant::Bool(true),
+                "IntLiteral" => ir::Constant::IntLiteral(1),
+                "Int32" => ir::Constant::Int32(1),
+                "UInt32" => ir::Constant::UInt32(1),
+                "FloatLiteral" => ir::Constant::FloatLiteral(1.0),
+                "Float16" => ir::Constant::Float16(1.0),
+                "Float32" => ir::Constant::Float32(1.0),
+                "Float64" => ir::Constant::Float64(1.0),
+                _ => return None,
+            }),
+            ("var", [i]) => {
+                let name = format!("v{}", atom_str(i)?);
+                let id = self.module.variable_registry.iter().find(|id| {
+                    let n: &str = &self.module.variable_registry.get_local_variable(*id).name.node;
+                    n == name
+                })?;
+                ir::Expression::Variable(id)
+            }
+            ("tern", [c, x, y]) => ir::Expression::TernaryConditional(Box::new(self.expr(c)?), Box::new(self.expr(x)?), Box::new(self.expr(y)?)),
+            ("seq", xs) => ir::Expression::Sequence(xs.iter().map(|x| self.expr(x)).collect::<Option<Vec<_>>>()?),
+            ("call", [f, xs @ ..]) => {
+                let k: u32 = atom_str(f)?.parse().ok()?;
+                let id = self.names.funcs.iter().find(|x| x.1 == k)?.0;
+                ir::Expression::Call(ir::FunctionId(id), ir::CallType::FreeFunction, xs.iter().map(|x| self.expr(x)).collect::<Option<Vec<_>>>()?)
+            }
+            ("cast", [t, x]) => ir::Expression::Cast(self.type_id(parse_ty(atom_str(t)?)?)?, Box::new(self.expr(x)?)),
+            ("op", [o, xs @ ..]) => {
+                let op = intrinsic_by_name(atom_str(o)?)?;
+                ir::Expression::IntrinsicOp(op, xs.iter().map(|x| self.expr(x)).collect::<Option<Vec<_>>>()?)
+            }
+            _ => return None,
+        })
+    }
+}
+
+fn intrinsic_by_name(s: &str) -> Option<ir::IntrinsicOp> {
+    use ir::IntrinsicOp::*;
+    let all = [
+        PrefixIncrement, PrefixDecrement, PostfixIncrement, PostfixDecrement, Plus, Minus, LogicalNot, BitwiseNot, Add, Subtract,
+        Multiply, Divide, Modulus, LeftShift, RightShift, BitwiseAnd, BitwiseOr, BitwiseXor, BooleanAnd, BooleanOr, LessThan,
+        LessEqual, GreaterThan, GreaterEqual, Equality, Inequality, Assignment, SumAssignment, DifferenceAssignment,
+        ProductAssignment, QuotientAssignment, RemainderAssignment, LeftShiftAssignment, RightShiftAssignment,
+        BitwiseAndAssignment, BitwiseOrAssignment, BitwiseXorAssignment,
+    ];
+    all.into_iter().find(|o| format!("{:?}", o) == s)
+}
+
+fn count_nodes(e: &Sx, hist: &mut Hist) {
+    if let Some((h, a)) = head(e) {
+        match h {
+            "un" | "bin" => {
+                if let Some(op) = a.first().and_then(atom_str) {
+                    hist.add(&format!("node:{}:{}", h, op));
+                }
+            }
+            "lit" | "var" | "tern" | "call" | "cast" => hist.add(&format!("node:{}", h)),
+            _ => {}
+        }
+        for x in a {
+            count_nodes(x, hist);
+        }
+    }
+}
+
+// ------------------------------------------------------------------------------------------- generators
+
+const UNOPS: &[&str] = &["PrefixIncrement", "PrefixDecrement", "PostfixIncrement", "PostfixDecrement", "Plus", "Minus", "LogicalNot", "BitwiseNot"];
+const ARITH: &[&str] = &[
+    "Add", "Subtract", "Multiply", "Divide", "Modulus", "LeftShift", "RightShift", "BitwiseAnd", "BitwiseOr", "BitwiseXor", "BooleanAnd",
+    "BooleanOr", "LessThan", "LessEqual", "GreaterThan", "GreaterEqual", "Equality", "Inequality",
+];
+const ASSIGN: &[&str] = &[
+    "Assignment", "SumAssignment", "DifferenceAssignment", "ProductAssignment", "QuotientAssignment", "RemainderAssignment",
+    "LeftShiftAssignment", "RightShiftAssignment", "BitwiseAndAssignment", "BitwiseOrAssignment", "BitwiseXorAssignment",
+];
+const LITS: &[&str] = &["Bool", "IntLiteral", "UInt32", "FloatLiteral", "Float16", "Float32", "Float64"];
+
+fn var(i: usize) -> Sx {
+    list(vec![atom("var"), atom(&i.to_string())])
+}
+fn lit(k: &str) -> Sx {
+    list(vec![atom("lit"), atom(k)])
+}
+fn un(op: &str, e: Sx) -> Sx {
+    list(vec![atom("un"), atom(op), e])
+}
+fn bin(op: &str, a: Sx, b: Sx) -> Sx {
+    list(vec![atom("bin"), atom(op), a, b])
+}
+fn tern(c: Sx, a: Sx, b: Sx) -> Sx {
+    list(vec![atom("tern"), c, a, b])
+}
+fn call(name: u32, args: Vec<Sx>) -> Sx {
+    let mut l = vec![atom("call"), atom(&name.to_string())];
+    l.extend(args);
+    list(l)
+}
+fn cast(t: Ty, e: Sx) -> Sx {
+    list(vec![atom("cast"), atom(&show_ty(t)), e])
+}
+fn s_expr(e: Sx) -> Sx {
+    list(vec![atom("expr"), e])
+}
+fn s_ret(e: Sx) -> Sx {
+    list(vec![atom("ret"), e])
+}
+fn s_init(t: Ty, e: Sx) -> Sx {
+    list(vec![atom("init"), atom(&show_ty(t)), e])
+}
+
+/// the variable types every generated environment starts from (index = variable number)
+fn base_vars() -> Vec<Ty> {
+    let mut v = Vec::new();
+    for s in GRID_SCALARS {
+        v.push(plain(Layer::Scalar(*s)));
+    }
+    v.push(plain(Layer::Vector(S_FLOAT, 3)));
+    v.push(plain(Layer::Vector(S_INT, 3)));
+    v.push(plain(Layer::Vector(S_FLOAT, 2)));
+    v.push(plain(Layer::Vector(S_INT, 1)));
+    v.push(plain(Layer::Matrix(S_FLOAT, 2, 2)));
+    v.push(plain(Layer::Matrix(S_INT, 2, 2)));
+    v.push(plain(Layer::Other(0)));
+    v.push(plain(Layer::Other(1)));
+    v.push(Ty { mods: Mods(1), layer: Layer::Scalar(S_INT) });
+    v.push(Ty { mods: Mods(1), layer: Layer::Scalar(S_FLOAT) });
+    v.push(Ty { mods: Mods(1), layer: Layer::Vector(S_FLOAT, 3) });
+    v.push(Ty { mods: Mods(1), layer: Layer::Other(0) });
+    v
+}
+
+/// variables with the modifiers the property does not single out (volatile, row_major, ...): a separate stream
+fn modified_vars() -> Vec<Ty> {
+    vec![
+        Ty { mods: Mods(2), layer: Layer::Scalar(S_INT) },
+        Ty { mods: Mods(2), layer: Layer::Scalar(S_FLOAT) },
+        Ty { mods: Mods(3), layer: Layer::Scalar(S_INT) },
+        Ty { mods: Mods(4), layer: Layer::Matrix(S_FLOAT, 2, 2) },
+        Ty { mods: Mods(4), layer: Layer::Matrix(S_INT, 2, 2) },
+        Ty { mods: Mods(8), layer: Layer::Matrix(S_FLOAT, 2, 2) },
+        plain(Layer::Scalar(S_INT)),
+        plain(Layer::Scalar(S_FLOAT)),
+        plain(Layer::Scalar(S_BOOL)),
+        plain(Layer::Matrix(S_FLOAT, 2, 2)),
+        plain(Layer::Matrix(S_BOOL, 2, 2)),
+    ]
+}
+
+fn base_funcs() -> Vec<Func> {
+    let i = plain(Layer::Scalar(S_INT));
+    let f = plain(Layer::Scalar(S_FLOAT));
+    let u = plain(Layer::Scalar(S_UINT));
+    let f3 = plain(Layer::Vector(S_FLOAT, 3));
+    let s0 = plain(Layer::Other(0));
+    vec![
+        // f0: overloads on int / float / uint
+        Func { name: 0, non_default: 1, ret: i, params: vec![Param { io: Io::In, ty: i }] },
+        Func { name: 0, non_default: 1, ret: f, params: vec![Param { io: Io::In, ty: f }] },
+        Func { name: 0, non_default: 1, ret: u, params: vec![Param { io: Io::In, ty: u }] },
+        // f1: out parameter
+        Func { name: 1, non_default: 1, ret: i, params: vec![Param { io: Io::Out, ty: i }] },
+        // f2: inout float3 + in float with default
+        Func { name: 2, non_default: 1, ret: f3, params: vec![Param { io: Io::InOut, ty: f3 }, Param { io: Io::In, ty: f }] },
+        // f3: struct parameter, struct result
+        Func { name: 3, non_default: 1, ret: s0, params: vec![Param { io: Io::In, ty: s0 }] },
+        // f4: no parameters
+        Func { name: 4, non_default: 0, ret: f, params: vec![] },
+        // f5: two in parameters
+        Func { name: 5, non_default: 2, ret: i, params: vec![Param { io: Io::In, ty: i }, Param { io: Io::In, ty: f3 }] },
+    ]
+}
+
+fn random_expr(rng: &mut Rng, env: &Envr, depth: u32) -> Sx {
+    let leaf = depth == 0 || rng.chance(1, 4);
+    if leaf {
+        return if rng.chance(1, 4) { lit(*rng.pick(LITS)) } else { var(rng.below(env.vars.len() as u64) as usize) };
+    }
+    match rng.below(20) {
+        0..=3 => un(*rng.pick(UNOPS), random_expr(rng, env, depth - 1)),
+        4..=9 => bin(*rng.pick(ARITH), random_expr(rng, env, depth - 1), random_expr(rng, env, depth - 1)),
+        10..=12 => bin(*rng.pick(ASSIGN), random_expr(rng, env, depth - 1), random_expr(rng, env, depth - 1)),
+        13 => bin("Sequence", random_expr(rng, env, depth - 1), random_expr(rng, env, depth - 1)),
+        14 | 15 => tern(random_expr(rng, env, depth - 1), random_expr(rng, env, depth - 1), random_expr(rng, env, depth - 1)),
+        16 | 17 => {
+            let f = rng.pick(&env.funcs).clone();
+            let n = if rng.chance(1, 8) { rng.below(3) as usize } else { f.params.len() };
+            call(f.name, (0..n).map(|_| random_expr(rng, env, depth - 1)).collect())
+        }
+        _ => {
+            let t = *rng.pick(&env.vars);
+            cast(Ty { mods: Mods(0), layer: t.layer }, random_expr(rng, env, depth - 1))
+        }
+    }
+}
+
+fn is_numeric(l: Layer) -> bool {
+    matches!(l, Layer::Scalar(_) | Layer::Vector(..) | Layer::Matrix(..))
+}
+
+fn dims(l: Layer) -> (u32, u32) {
+    match l {
+        Layer::Vector(_, n) => (n, 0),
+        Layer::Matrix(_, x, y) => (x, y),
+        _ => (0, 0),
+    }
+}
+
+/// statements that are well-typed by construction (simple templates over the environment)
+fn well_typed(env: &Envr) -> Vec<Sx> {
+    let mut v = Vec::new();
+    let n = env.vars.len();
+    for i in 0..n {
+        for j in 0..n {
+            let (a, b) = (env.vars[i], env.vars[j]);
+            let same_shape = (is_numeric(a.layer) && is_numeric(b.layer) && dims(a.layer) == dims(b.layer)) || a.layer == b.layer;
+            if !same_shape {
+                continue;
+            }
+            if a.mods.0 == 0 {
+                v.push(s_expr(bin("Assignment", var(i), var(j))));
+                v.push(s_init(a, var(j)));
+            }
+            if is_numeric(a.layer) && a.mods.0 & !1 == 0 && b.mods.0 & !1 == 0 {
+                v.push(s_expr(bin("Add", var(i), var(j))));
+                v.push(s_expr(bin("LessThan", var(i), var(j))));
+            }
+        }
+    }
+    for (k, f) in env.funcs.iter().enumerate() {
+        // exact arguments for every function whose name is not overloaded
+        if env.funcs.iter().filter(|g| g.name == f.name).count() != 1 {
+            continue;
+        }
+        let mut args = Vec::new();
+        let mut ok = true;
+        for p in &f.params {
+            match env.vars.iter().position(|t| *t == p.ty) {
+                Some(i) => args.push(var(i)),
+                None => ok = false,
+            }
+        }
+        if ok {
+            v.push(s_expr(call(f.name, args.clone())));
+            if Some(f.ret) == env.ret {
+                v.push(s_ret(call(f.name, args)));
+            }
+        }
+        let _ = k;
+    }
+    v
+}
+
+/// one injected violation per statement, of the kinds the property lists
+fn violations(env: &Envr) -> Vec<(String, Sx)> {
+    let mut v: Vec<(String, Sx)> = Vec::new();
+    let find = |t: Ty| env.vars.iter().position(|x| *x == t);
+    let int = plain(Layer::Scalar(S_INT));
+    let flt = plain(Layer::Scalar(S_FLOAT));
+    let f3 = plain(Layer::Vector(S_FLOAT, 3));
+    let s0 = plain(Layer::Other(0));
+    let (Some(vi), Some(vf), Some(vf3), Some(vs)) = (find(int), find(flt), find(f3), find(s0)) else {
+        return v;
+    };
+    let consts: Vec<usize> = (0..env.vars.len()).filter(|i| env.vars[*i].mods.0 & 1 != 0).collect();
+    for op in ASSIGN {
+        // write to const
+        for c in &consts {
+            if is_numeric(env.vars[*c].layer) || *op == "Assignment" {
+                v.push(("write-const".into(), s_expr(bin(op, var(*c), var(*c)))));
+            }
+        }
+        // write to rvalue: literal, a+b, function result, cast, postfix increment, negation
+        v.push(("write-rvalue-literal".into(), s_expr(bin(op, lit("IntLiteral"), var(vi)))));
+        v.push(("write-rvalue-sum".into(), s_expr(bin(op, bin("Add", var(vi), var(vi)), var(vi)))));
+        v.push(("write-rvalue-call".into(), s_expr(bin(op, call(4, vec![]), var(vf)))));
+        v.push(("write-rvalue-cast".into(), s_expr(bin(op, cast(int, var(vi)), var(vi)))));
+        v.push(("write-rvalue-postfix".into(), s_expr(bin(op, un("PostfixIncrement", var(vi)), var(vi)))));
+        v.push(("write-rvalue-ternary".into(), s_expr(bin(op, tern(lit("Bool"), var(vi), var(vi)), var(vi)))));
+    }
+    for op in &UNOPS[..4] {
+        for c in &consts {
+            v.push(("increment-const".into(), s_expr(un(op, var(*c)))));
+        }
+        v.push(("increment-rvalue".into(), s_expr(un(op, lit("IntLiteral")))));
+        v.push(("increment-rvalue".into(), s_expr(un(op, bin("Add", var(vi), var(vi))))));
+        v.push(("increment-rvalue".into(), s_expr(un(op, call(4, vec![])))));
+    }
+    // rvalue / const to out and inout parameters
+    v.push(("out-rvalue".into(), s_expr(call(1, vec![lit("IntLiteral")]))));
+    v.push(("out-rvalue".into(), s_expr(call(1, vec![bin("Add", var(vi), var(vi))]))));
+    v.push(("out-rvalue".into(), s_expr(call(1, vec![call(0, vec![var(vi)])]))));
+    v.push(("out-rvalue".into(), s_expr(call(1, vec![cast(int, var(vi))]))));
+    v.push(("inout-rvalue".into(), s_expr(call(2, vec![bin("Add", var(vf3), var(vf3))]))));
+    v.push(("inout-rvalue".into(), s_expr(call(2, vec![cast(f3, var(vf3)), var(vf)]))));
+    for c in &consts {
+        if env.vars[*c].layer == int.layer {
+            v.push(("out-const".into(), s_expr(call(1, vec![var(*c)]))));
+        }
+        if env.vars[*c].layer == f3.layer {
+            v.push(("inout-const".into(), s_expr(call(2, vec![var(*c)]))));
+            v.push(("inout-const".into(), s_expr(call(2, vec![var(*c), var(vf)]))));
+        }
+    }
+    // wrong number of arguments
+    v.push(("arity".into(), s_expr(call(1, vec![]))));
+    v.push(("arity".into(), s_expr(call(1, vec![var(vi), var(vi)]))));
+    v.push(("arity".into(), s_expr(call(2, vec![]))));
+    v.push(("arity".into(), s_expr(call(2, vec![var(vf3), var(vf), var(vf)]))));
+    v.push(("arity".into(), s_expr(call(4, vec![var(vf)]))));
+    v.push(("arity".into(), s_expr(call(5, vec![var(vi)]))));
+    v.push(("arity".into(), s_expr(call(0, vec![]))));
+    v.push(("arity".into(), s_expr(call(0, vec![var(vi), var(vi)]))));
+    // unconvertible argument
+    v.push(("unconvertible".into(), s_expr(call(0, vec![var(vs)]))));
+    v.push(("unconvertible".into(), s_expr(call(3, vec![var(vi)]))));
+    v.push(("unconvertible".into(), s_expr(call(5, vec![var(vs), var(vf3)]))));
+    v.push(("unconvertible".into(), s_expr(call(5, vec![var(vi), var(vs)]))));
+    v.push(("unconvertible".into(), s_expr(call(5, vec![var(vi), var(vf3), var(vf3)]))));
+    // wrong return type
+    match env.ret {
+        Some(t) if t.layer == s0.layer => {
+            v.push(("return-type".into(), s_ret(var(vi))));
+            v.push(("return-type".into(), s_ret(lit("Float32"))));
+            v.push(("return-type".into(), list(vec![atom("ret")])));
+        }
+        Some(t) if is_numeric(t.layer) => {
+            v.push(("return-type".into(), s_ret(var(vs))));
+            v.push(("return-type".into(), s_ret(call(3, vec![var(vs)]))));
+            v.push(("return-type".into(), list(vec![atom("ret")])));
+            if dims(t.layer) == (0, 0) {
+                // a scalar cannot be produced from a matrix
+                if let Some(m) = find(plain(Layer::Matrix(S_FLOAT, 2, 2))) {
+                    v.push(("return-type".into(), s_ret(var(m))));
+                }
+            }
+        }
+        None => {
+            v.push(("return-type".into(), s_ret(var(vi))));
+            v.push(("return-type".into(), s_ret(var(vs))));
+        }
+        _ => {}
+    }
+    // wrong initialiser type
+    v.push(("init-type".into(), s_init(int, var(vs))));
+    v.push(("init-type".into(), s_init(s0, var(vi))));
+    v
+}
+
+pub fn run(args: &Args, out: &mut Out) {
+    let mut r = Runner { hist: Hist::default(), compiles: 0, nodes: 0, typed: Vec::new() };
+    let mut real = Real::new();
+    if let Some(lines) = args.request_lines() {
+        for line in lines {
+            let f: Vec<&str> = line.split('\t').collect();
+            match f.as_slice() {
+                ["C03.conv", src, dsts] => {
+                    let s = parse_ety(src);
+                    let d: Option<Vec<ETy>> = dsts.split(' ').map(parse_ety).collect();
+                    match (s, d) {
+                        (Some(s), Some(d)) => real.conv_row(s, &d, out, &mut r.hist),
+                        _ => out.case(&line, "-", "SKIP:bad request"),
+                    }
+                }
+                ["C03.prog", vars, funcs, ret, stmt, expect] => match (parse_env(vars, funcs, ret), parse_sx(stmt)) {
+                    (Some(env), Some(stmt)) => r.prog_case(&env, &stmt, expect, out),
+                    _ => out.case(&line, "-", "SKIP:bad request"),
+                },
+                ["C03.type", vars, funcs, ret, typed] => match (parse_env(vars, funcs, ret), parse_sx(typed)) {
+                    (Some(env), Some(t)) => r.type_case(&env, &t, out),
+                    _ => out.case(&line, "-", "SKIP:bad request"),
+                },
+                _ => {}
+            }
+        }
+        out.stat(&format!("{{\"mode\":\"replay\",\"compiles\":{},\"ir_nodes_walked\":{},\"hist\":{}}}", r.compiles, r.nodes, r.hist.json()));
+        return;
+    }
+    let mut rng = Rng::new(args.seed);
+
+    // (1) exhaustive find / get_target_type table
+    let uni = conv_universe(args.thorough());
+    for s in &uni {
+        real.conv_row(*s, &uni, out, &mut r.hist);
+    }
+
+    // (2) environments: return type varies; variables and functions fixed
+    let rets: Vec<Option<Ty>> = vec![
+        None,
+        Some(plain(Layer::Scalar(S_INT))),
+        Some(plain(Layer::Scalar(S_FLOAT))),
+        Some(plain(Layer::Vector(S_FLOAT, 3))),
+        Some(plain(Layer::Other(0))),
+        Some(Ty { mods: Mods(1), layer: Layer::Scalar(S_FLOAT) }),
+    ];
+    let envs: Vec<Envr> = rets.iter().map(|ret| Envr { vars: base_vars(), funcs: base_funcs(), ret: *ret }).collect();
+
+    // (2a) exhaustive small statements over the base environment: every unary operator on every variable and literal,
+    //      every binary operator on a seeded slice of the operand pairs (thorough: all pairs)
+    let env0 = &envs[0];
+    let mut operands: Vec<Sx> = (0..env0.vars.len()).map(var).collect();
+    operands.extend(LITS.iter().map(|k| lit(k)));
+    for op in UNOPS {
+        for x in &operands {
+            r.prog_case(env0, &s_expr(un(op, x.clone())), "any", out);
+        }
+    }
+    let stride = if args.thorough() { 1 } else { 7 };
+    let mut k = rng.below(stride);
+    for op in ARITH.iter().chain(ASSIGN.iter()).chain(["Sequence"].iter()) {
+        for x in &operands {
+            for y in &operands {
+                k += 1;
+                if k % stride != 0 {
+                    continue;
+                }
+                r.prog_case(env0, &s_expr(bin(op, x.clone(), y.clone())), "any", out);
+            }
+        }
+    }
+    let tstride = if args.thorough() { 3 } else { 41 };
+    for c in &operands {
+        for x in &operands {
+            for y in &operands {
+                k += 1;
+                if k % tstride != 0 {
+                    continue;
+                }
+                r.prog_case(env0, &s_expr(tern(c.clone(), x.clone(), y.clone())), "any", out);
+            }
+        }
+    }
+    // calls with one argument to every function name, returns and initialisers of every operand
+    for name in 0..6u32 {
+        for x in &operands {
+            r.prog_case(env0, &s_expr(call(name, vec![x.clone()])), "any", out);
+        }
+    }
+    for env in &envs {
+        for x in &operands {
+            r.prog_case(env, &s_ret(x.clone()), "any", out);
+        }
+    }
+    for t in env0.vars.iter() {
+        for (j, x) in operands.iter().enumerate() {
+            if (j as u64 + k) % (if args.thorough() { 1 } else { 3 }) == 0 {
+                r.prog_case(env0, &s_init(*t, x.clone()), "any", out);
+            }
+        }
+    }
+
+    // (2b) well-typed by construction, and the same environments with one injected violation
+    for env in &envs {
+        let wt = well_typed(env);
+        let wstride = if args.thorough() { 1 } else { 5 };
+        for (i, s) in wt.iter().enumerate() {
+            if (i as u64 + k) % wstride == 0 {
+                r.prog_case(env, s, "accept", out);
+            }
+        }
+        for (kind, s) in violations(env) {
+            r.hist.add(&format!("violation:{}", kind));
+            r.prog_case(env, &s, "reject", out);
+        }
+    }
+
+    // (2c) the modifiers outside the property's list (volatile, row_major, column_major): small exhaustive stream
+    let envm = Envr { vars: modified_vars(), funcs: base_funcs(), ret: Some(plain(Layer::Scalar(S_FLOAT))) };
+    let mut mops: Vec<Sx> = (0..envm.vars.len()).map(var).collect();
+    mops.push(lit("IntLiteral"));
+    mops.push(lit("Float32"));
+    for op in UNOPS {
+        for x in &mops {
+            r.prog_case(&envm, &s_expr(un(op, x.clone())), "any", out);
+        }
+    }
+    for op in ["Add", "LessThan", "BooleanAnd", "Assignment", "SumAssignment", "LeftShiftAssignment"] {
+        for x in &mops {
+            for y in &mops {
+                r.prog_case(&envm, &s_expr(bin(op, x.clone(), y.clone())), "any", out);
+            }
+        }
+    }
+    for x in &mops {
+        for y in &mops {
+            r.prog_case(&envm, &s_expr(tern(var(8), x.clone(), y.clone())), "any", out);
+        }
+        r.prog_case(&envm, &s_ret(x.clone()), "any", out);
+    }
+
+    // (3) random statements
+    let n = args.n.unwrap_or(if args.thorough() { 30000 } else { 1500 });
+    for i in 0..n {
+        let env = &envs[(i % envs.len() as u64) as usize];
+        let depth = 1 + rng.below(3) as u32;
+        let e = random_expr(&mut rng, env, depth);
+        let stmt = match rng.below(8) {
+            0 => s_ret(e),
+            1 => s_init(*rng.pick(&env.vars), e),
+            _ => s_expr(e),
+        };
+        r.prog_case(env, &stmt, "any", out);
+    }
+
+    // (4) the typed statements the real type checker produced, re-typed node by node with the real get_type
+    let typed = std::mem::take(&mut r.typed);
+    let tcap = if args.thorough() { 20000 } else { 1200 };
+    let tstep = (typed.len() / tcap).max(1);
+    for (i, line) in typed.iter().enumerate() {
+        if i % tstep != 0 {
+            continue;
+        }
+        let f: Vec<&str> = line.split('\t').collect();
+        if let ["C03.type", vars, funcs, ret, t] = f.as_slice() {
+            if let (Some(env), Some(t)) = (parse_env(vars, funcs, ret), parse_sx(t)) {
+                r.type_case(&env, &t, out);
+            }
+        }
+    }
+
+    out.stat(&format!(
+        "{{\"conv_universe\":{},\"conv_pairs\":{},\"random_statements\":{},\"compiles\":{},\"ir_nodes_walked\":{},\"hist\":{}}}",
+        uni.len(),
+        uni.len() * uni.len(),
+        n,
+        r.compiles,
+        r.nodes,
+        r.hist.json()
+    ));
 }
